@@ -630,7 +630,8 @@ def run(ctx):
                               ('Gen_Searches.v', sel2coq.translate_searches, 'pvBinarySearch, pvExponentialSearch'),
                               ('Gen_GroupLambda.v', sel2coq.translate_group_lambda, 'group callback of HashSorter::pvSort'),
                               ('Gen_IsSorted.v', sel2coq.translate_issorted, 'pvIsGrouped, pvIsSorted'),
-                              ('Gen_FindNext.v', sel2coq.translate_findnext, 'pvFindNext (forward iterators)')):
+                              ('Gen_FindNext.v', sel2coq.translate_findnext, 'pvFindNext (forward iterators)'),
+                              ('Gen_FindOther.v', sel2coq.translate_findother, 'pvFindOther (forward iterators)')):
         gpath = os.path.join(ctx.cdir, gname)
         try:
             txt = gfun(repo=ctx.repo)
